@@ -163,8 +163,16 @@ def run_case(case, exec_seed=None, exec_tape=None):
                 if err is None and texc:
                     V("liveness", "task-thread-died:" + type(texc[0].exc).__name__, repr(texc[0].exc)[:300])
                 if res is not None:
-                    # 1. results
+                    # 1. results (the returned mapping: same entries in the same order, same values)
+                    if list(res.keys()) != ref.order:
+                        V("result", "result-entries-differ", {"got": list(res.keys()), "ref": ref.order})
                     for o in all_outputs(w):
+                        if o in res and (res[o].output_name != o or res[o].function != ref.functions[o]):
+                            V("result", "result-labels-differ", {"output": o, "got": [res[o].output_name, res[o].function]})
+                            break
+                    for o in all_outputs(w):
+                        if o not in res:
+                            break
                         got = canon(res[o].output)
                         if got != ref.R0[o]:
                             V("result", "output-differs", {"output": o, "got": repr(got)[:300], "ref": repr(ref.R0[o])[:300]})
@@ -201,12 +209,20 @@ def _check_stored(w, cfg, res, ref, folder, V):
     from pipefunc.map import load_outputs
     from pipefunc.map._storage_array._base import StorageBase
 
+    from pipefunc.map._result import DirectValue
+
     for o in all_outputs(w):
+        if o not in res:
+            return
         st = res[o].store
         if isinstance(st, StorageBase):
             got = canon(st.to_array())
             if got != ref.R0[o]:
                 V("stored", "store-differs", {"output": o, "got": repr(got)[:300], "ref": repr(ref.R0[o])[:300]})
+                return
+        elif isinstance(st, DirectValue):
+            if not st.exists() or canon(st.value) != ref.R0[o]:
+                V("stored", "direct-value-differs", {"output": o, "got": repr(canon(st.value) if st.exists() else None)[:300]})
                 return
     if folder is None:
         return
